@@ -69,7 +69,7 @@ ActualUnits(baseLen, actions, authLen, authCompute, rules, balChunks) ==
      ActualStorage(actions, balChunks, <<rules[6], rules[7]>>) >>
 
 Dims == 1..5
-DimName(d) == CASE d = 1 -> "bandwidth" [] d = 2 -> "compute" [] d = 3 -> "storage-read" [] d = 4 -> "storage-allocate" [] d = 5 -> "storage-write"
+DimName(d) == CASE d = 1 -> "bandwidth" [] d = 2 -> "compute" [] d = 3 -> "read" [] d = 4 -> "allocate" [] d = 5 -> "write"
 Covers(est, act) == \A d \in Dims : est[d] >= act[d]
 Dot(p, u) == p[1] * u[1] + p[2] * u[2] + p[3] * u[3] + p[4] * u[4] + p[5] * u[5]
 =============================================================================
